@@ -13,13 +13,13 @@ type mLayout struct {
 	annGap     string // blanks between element and annotation
 	multi      bool   // write annotations as /* */ instead of //
 	quoteNames bool   // quote rule names
-	comments   int    // 0 none, 1 `# c` line comments, 2 `###` block comment
+	comments   int    // 0 none, 1 `# c` line comments, 2 `###` block comment, 3 block comment between value and annotation
 	lead, tail string // leading / trailing blank lines
 }
 
 func mAnnotationL(n mNode, L mLayout) string {
 	if len(n.rules) == 0 && n.note == "" {
-		return ""
+		return n.userComment
 	}
 	body := ""
 	if len(n.rules) > 0 {
@@ -43,9 +43,9 @@ func mAnnotationL(n mNode, L mLayout) string {
 		body += n.note
 	}
 	if L.multi {
-		return L.annGap + "/* " + body + " */"
+		return L.annGap + "/* " + body + " */" + n.userComment
 	}
-	return L.annGap + "// " + body
+	return L.annGap + "// " + body + n.userComment
 }
 
 func mPrintL(n mNode, L mLayout) string {
@@ -76,6 +76,9 @@ func mPrintL(n mNode, L mLayout) string {
 			if i != len(n.children)-1 {
 				s += ","
 			}
+			if L.comments == 3 && i == 0 && mAnnotationL(c, L) != "" {
+				s += " ###" + L.nl + "two lines" + L.nl + "of block comment ###"
+			}
 			s += mAnnotationL(c, L)
 			if L.comments == 1 && i == 0 {
 				s += " # trailing comment"
@@ -84,7 +87,14 @@ func mPrintL(n mNode, L mLayout) string {
 		}
 		s += close
 	default:
-		s += n.valText + mAnnotationL(n, L)
+		s += n.valText
+		if L.comments == 3 && mAnnotationL(n, L) != "" {
+			s += " ###" + L.nl + "two lines" + L.nl + "of block comment ###"
+		}
+		s += mAnnotationL(n, L)
+		if L.comments == 1 {
+			s += " # trailing comment"
+		}
 	}
 	return s + L.tail
 }
@@ -109,7 +119,7 @@ func mVary(L mLayout, tag string) mLayout {
 	case 5:
 		L.quoteNames = true
 	case 6:
-		L.comments = zzverif.IntRange(tag+"comments", 1, 2)
+		L.comments = zzverif.IntRange(tag+"comments", 1, 3)
 	case 7:
 		L.lead = L.nl + " " + L.nl
 	default:
@@ -131,7 +141,7 @@ func mVaried() mLayout {
 func mModel() mNode {
 	d := string([]byte{zzverif.Digit("d")})
 	sc := string([]byte{zzverif.OneOf("s", "ab.")})
-	switch zzverif.IntRange("model", 0, 3) {
+	switch zzverif.IntRange("model", 0, 5) {
 	case 0:
 		return mNode{kind: schema.TokenTypeNumber, valText: d, valWant: d,
 			rules: []mRule{{"min", "3", mNum(schema.TokenTypeNumber, "3")}, {"max", "7", mNum(schema.TokenTypeNumber, "7")}}, note: mNote("n.")}
@@ -144,6 +154,16 @@ func mModel() mNode {
 			{kind: schema.TokenTypeNumber, key: "a", valText: d, valWant: d, rules: []mRule{{"min", "3", mNum(schema.TokenTypeNumber, "3")}}, note: mNote("a.")},
 			{kind: schema.TokenTypeString, key: "b", valText: `"` + sc + `"`, valWant: sc, rules: []mRule{{"optional", "true", mNum(schema.TokenTypeBoolean, "true")}}},
 			{kind: schema.TokenTypeShortcut, key: "c", valText: "@t", valWant: "@t"},
+		}
+		return root
+	case 4: // a user comment after the note is part of the text in BOTH layouts
+		return mNode{kind: schema.TokenTypeNumber, valText: d, valWant: d,
+			rules: []mRule{{"min", "3", mNum(schema.TokenTypeNumber, "3")}}, note: "note " + sc, userComment: " # c" + sc}
+	case 5: // an array-valued member followed by `, # comment`, then an annotated member
+		root := mNode{kind: schema.TokenTypeObject}
+		root.children = []mNode{
+			{kind: schema.TokenTypeArray, key: "a", valText: "[" + d + "]", userComment: " # c" + sc},
+			{kind: schema.TokenTypeNumber, key: "b", valText: d, valWant: d, rules: []mRule{{"min", "3", mNum(schema.TokenTypeNumber, "3")}}},
 		}
 		return root
 	default:
